@@ -108,6 +108,9 @@ LEAVES = [
     # one str per Unicode general category that is not plain printable ASCII, the whole Latin-1 range at once, every byte value
     "'\\u200b'", "'a\\u202eb'", "'\\ufeff'", "'\\xad'", "'\\u2028'", "'\\u2029'", "'\\xa0'", "'\\u3000'", "'e\\u0301'", "'\\ue000'", "'\\u0378'", "'\\u4e2d'", "'\\u2603'",
     "'\\x7f\\x80\\x9f'", "'\\U000e0001'", "'\\U0010ffff'", repr(''.join(map(chr, range(256)))), repr(bytes(range(256))), "'\\u200b' + b'\\xe2\\x80\\x8b'.decode()",
+    # regular expressions are shown as re.compile(r'...'); one-element tuple subscripts; overflowing complex literals
+    "re.compile('x', **kw)", 're.compile("it\'s")', "re.compile('(?i)x')", "re.compile('x', re.I)", "re.compile(pat)", "re.compile('a\\\\d+')", "re.compile(b'x')", "re.compile('x', flags=re.X | re.I)",
+    "re.compile(r'''a'b\"c''')", 'table[1,]', 'a[(1, 2),]', 'a[()]', '1e999j', '-1e999', 'a[1,][0]',
     '-(1)', '- 1', '--1', '-(-1)', 'not not a', '~-1', '(-1)**2', '-1**2', '2**-1', '(1+2j).real', '1 .real', '1.5.real', "''.join", '[1][0]', '(1, 2)[0]', '{1: 2}[1]',
 ]
 
@@ -140,8 +143,33 @@ class _SetNorm(ast.NodeTransformer):
         return n
 
 
+class _ReNorm(ast.NodeTransformer):
+    """re.compile(...) is shown as a raw-string pattern re-generated from the parsed regex (pinned by the repository's tests): patterns are compared
+    as regexes as far as that is decidable here - a quote may be written escaped, the default 'u' flag may be spelt out - and 'flags' may be positional"""
+    def visit_Call(self, n: ast.Call) -> Any:
+        self.generic_visit(n)
+        if isinstance(n.func, ast.Attribute) and n.func.attr == 'compile' and isinstance(n.func.value, ast.Name) and n.func.value.id == 're':
+            args = list(n.args)
+            kws = {k.arg: k.value for k in n.keywords if k.arg}
+            if len(args) == 0 and 'pattern' in kws:
+                args.append(kws.pop('pattern'))
+            if len(args) == 1 and 'flags' in kws:
+                args.append(kws.pop('flags'))
+            if args and isinstance(args[0], ast.Constant) and isinstance(args[0].value, (str, bytes)):
+                v = args[0].value
+                if isinstance(v, str):
+                    v = re.sub(r'\\([\'"])', r'\1', v)
+                    v = re.sub(r'^\(\?([a-zA-Z]*)\)', lambda m: ('(?%s)' % ''.join(sorted(set(m.group(1)) - {'u'}))) if set(m.group(1)) - {'u'} else '', v)
+                else:
+                    v = re.sub(rb'\\([\'"])', rb'\1', v)
+                args[0] = ast.Constant(value=v)
+            if not any(k.arg is None for k in n.keywords):
+                n = ast.Call(func=n.func, args=args, keywords=[ast.keyword(arg=k, value=val) for k, val in kws.items()])
+        return n
+
+
 def norm(e: ast.AST) -> str:
-    return ast.dump(_SetNorm().visit(ast.parse(ast.unparse(e), mode='eval').body))
+    return ast.dump(_ReNorm().visit(_SetNorm().visit(ast.parse(ast.unparse(e), mode='eval').body)))
 
 
 def shown(e: ast.expr) -> str:
